@@ -129,20 +129,37 @@ type bisim struct {
 	ab    map[*Value]*Value
 	ba    map[*Value]*Value
 	first string
+	tag   string
 }
 
 // Bisim compares two rooted graphs: unfolded content must agree, and nodes
 // marked Ident on either side must be in one-to-one correspondence.
 // It returns "" when they agree, else a description of the first difference.
 func Bisim(a, b *Value, o CmpOpts) string {
+	d, _ := BisimTag(a, b, o)
+	return d
+}
+
+// BisimTag also returns a short tag naming the kind of the first difference
+// (kind, int, date, string, list-type, list-len, class, field-name, map-key, identity, ...).
+func BisimTag(a, b *Value, o CmpOpts) (string, string) {
 	s := &bisim{o: o, seen: map[pair]bool{}, ab: map[*Value]*Value{}, ba: map[*Value]*Value{}}
 	s.cmp(a, b, "$")
-	return s.first
+	return s.first, s.tag
 }
 
 func (s *bisim) fail(path, f string, args ...interface{}) bool {
 	if s.first == "" {
 		s.first = path + ": " + fmt.Sprintf(f, args...)
+		// the tag is the leading word(s) of the format up to the first verb
+		t := f
+		if i := strings.IndexByte(t, '%'); i >= 0 {
+			t = t[:i]
+		}
+		if i := strings.IndexByte(t, ':'); i >= 0 {
+			t = t[:i]
+		}
+		s.tag = strings.ReplaceAll(strings.TrimSpace(t), " ", "-")
 	}
 	return false
 }
@@ -275,13 +292,13 @@ func (s *bisim) cmp(a, b *Value, path string) bool {
 		used := make([]bool, len(b.Elems)/2)
 		for i := 0; i+1 < len(a.Elems); i += 2 {
 			found := false
-			ka := ScalarKey(a.Elems[i])
+			ka := s.key(a.Elems[i])
 			for j := 0; j+1 < len(b.Elems); j += 2 {
 				if used[j/2] {
 					continue
 				}
 				if ka != "" {
-					if ScalarKey(b.Elems[j]) != ka {
+					if s.key(b.Elems[j]) != ka {
 						continue
 					}
 				} else {
@@ -304,6 +321,15 @@ func (s *bisim) cmp(a, b *Value, path string) bool {
 		return true
 	}
 	return s.fail(path, "unknown kind")
+}
+
+// key: scalar key string; under NullEmpty an absent key equals the empty string / binary.
+func (s *bisim) key(v *Value) string {
+	k := ScalarKey(v)
+	if s.o.NullEmpty && (k == "s" || k == "x") {
+		return "N"
+	}
+	return k
 }
 
 func clip(s string) string {
